@@ -37,7 +37,7 @@ DIRECTIO = ['absent', 0, 1, '1', "'1'", 'absent', 1, 0, '0', "'0'", 1]
 def required(tier):
     b = {f'residue:{k}': 1 for k in range(32)}
     b.update({'residue:0': 4, 'directio:on': 40, 'directio:off': 40, 'template:on': 20, 'template:off': 40, 'override-attempt': 30,
-              'multi-file': 40, 'permutations>=2': 20, 'many-blocks-unpadded': 20, 're-recorded-same-stem': 50, 'reducer-header-skip': 30, 'user-key-begins-with-END': 20, 'sibling-stems-in-directory': 50, 'directio:string-zero': 20, 'empty-string-value': 10, 'blimpy-consulted': 50, 'aligned+directio': 3})
+              'multi-file': 40, 'permutations>=2': 20, 'many-blocks-unpadded': 20, 're-recorded-same-stem': 50, 'reducer-header-skip': 30, 'user-key-begins-with-END': 20, 'sibling-stems-in-directory': 50, 'directio:string-zero': 20, 'empty-string-value': 10, 'blimpy-consulted': 50, 'aligned+directio': 3, 're-recorded-through-from_data:longer-than-input': 60})
     return {'buckets': b, 'counters': {'blocks_parsed': 500, 'reader_comparisons': 500, 'listing_orders_realised': 40},
             'checks': 3000, 'nontrivial': 100}
 
@@ -344,6 +344,51 @@ def _run(stg, raw_utils, c, cfg, tmp, R):
             except SystemExit:
                 R.violate('blimpy-rejects-file', file=fi)
     R.mark_nontrivial(len(all_blocks) >= 2)
+    # ---- the recording is read back through RawVoltageBackend.from_data and written again, the caller asking for MORE than the
+    # input holds: the pipeline-owned cards of the new file describe what was written (the input's length), not what was asked for
+    if c['_idx'] % 4 == 2 and not c['user'].get('EMPTYSTR') == '':
+        R.bucket('re-recorded-through-from_data:longer-than-input')
+        v = stg.voltage
+        _, src2 = work_raw.build(stg, dict(cfg, tones=[], seed=cfg['seed'] + 5))
+        nin = len(all_blocks)
+        stem_out = os.path.join(tmp, 'again_out')
+        try:
+            with common.quiet():
+                rvb2 = v.RawVoltageBackend.from_data(stem, src2, digitizer=v.RealQuantizer(),
+                                                     filterbank=v.PolyphaseFilterbank(num_taps=cfg['M'], num_branches=cfg['P']),
+                                                     start_chan=cfg['start_chan'], num_subblocks=1)
+                if c['_idx'] % 8 == 2:
+                    rvb2.record(stem_out, num_blocks=nin + 3, length_mode='num_blocks', header_dict={}, digitize=False, load_template=False,
+                                verbose=False)
+                else:
+                    rvb2.record(stem_out, obs_length=(nin + 2.5) * rvb2.time_per_block, length_mode='obs_length', header_dict={},
+                                digitize=False, load_template=False, verbose=False)
+            out_files = sorted(glob.glob(stem_out + '.????.raw'))
+            ob = [b for f in out_files for b in guppi.parse_file(f)]
+        except guppi.GuppiError as e:
+            R.violate('framing:' + e.key + ':re-recorded-through-from_data', msg=str(e))
+            ob = None
+        if ob is not None:
+            R.check(len(ob) == nin, 're-recorded-through-from_data:block-count', got=len(ob), want=nin)
+            for bi, blk in enumerate(ob):
+                h = blk['header']
+                g = guppi.parse_value(h.get('SCANLEN', 'missing'))
+                w = nin * spb * tbin
+                R.check(isinstance(g, (int, float)) and abs(g - w) <= 1e-12 * w, 're-recorded-through-from_data:owned-field-wrong:SCANLEN',
+                        got=g, want=w, asked_blocks=nin + 3, block=bi)
+                for k in ('BLOCSIZE', 'OBSNCHAN', 'NBITS', 'TBIN'):
+                    R.check(k in h and _num_eq(h[k], guppi.parse_value(h0[k])), 're-recorded-through-from_data:owned-field-wrong:' + k, block=bi)
+                if 'PKTSTOP' in h and 'PKTSTART' in h:
+                    def num_(x):            # cards inherited from the input come back as quoted strings (not judged here)
+                        x = guppi.parse_value(x)
+                        return float(str(x).strip().strip("'")) if isinstance(x, str) else float(x)
+                    try:
+                        span = num_(h['PKTSTOP']) - num_(h['PKTSTART'])
+                    except ValueError:
+                        span = None
+                    R.check(span == nin * spb, 're-recorded-through-from_data:pktstop', got=h['PKTSTOP'], start=h['PKTSTART'], block=bi)
+            for f in out_files:
+                os.remove(f)
     # ---- history: the SAME stem is recorded again in this process with another configuration and header; the library
     # readers must describe the bytes that are on disk now, not what they saw before
     if c['_idx'] % 4 == 0:
